@@ -598,6 +598,7 @@ func c16History(r *c16Rig) {
 		st := state{true}
 		accA, accB := atomic.LoadInt64(&r.a.accepts), atomic.LoadInt64(&r.b.accepts)
 		connA, connB := false, false // model: pooled connection exists
+		restarted := false
 		var names []string
 		for _, ei := range h {
 			e := events[ei]
@@ -628,6 +629,20 @@ func c16History(r *c16Rig) {
 				}
 			case "call-B":
 				res := r.call(c16Call{kind: "unary", reqs: [][]byte{{1}}, md: metadata.Pairs("dsthost", host)})
+				if st.bRouted && restarted {
+					// the first calls after a backend restart may race with grpc-go noticing the
+					// dead transport (Unavailable): that is not a table change; require eventual success
+					for i := 0; i < 200 && res.code == codes.Unavailable; i++ {
+						time.Sleep(10 * time.Millisecond)
+						r.b.mu.Lock()
+						r.b.calls = nil
+						r.b.mu.Unlock()
+						res = r.call(c16Call{kind: "unary", reqs: [][]byte{{1}}, md: metadata.Pairs("dsthost", host)})
+					}
+					restarted = false
+					connB = true
+					accB = atomic.LoadInt64(&r.b.accepts)
+				}
 				if st.bRouted {
 					if res.code != codes.OK {
 						d["status"] = fmt.Sprint(res.code, res.msg)
@@ -679,10 +694,7 @@ func c16History(r *c16Rig) {
 				r.b.srv.Stop()
 				waitFor(func() bool { return atomic.LoadInt64(&r.b.open) == 0 })
 				r.b.start(addr)
-				if connB {
-					// the pooled connection reconnects on its own: one more accept is legitimate
-					connB = false
-				}
+				restarted = true
 				L.NontrivialKey(fmt.Sprint(names))
 			}
 			states[fmt.Sprint(st, connA, connB)] = true
